@@ -236,6 +236,7 @@ MC_FAMILIES = {  # cfg file, (quick depth, thorough depth)
     "debt": ("MC_Debt.cfg", (7, 8)),
     "stagger": ("MC_Stagger.cfg", (12, 14)),
     "valset": ("MC_ValSet.cfg", (4, 6)),          # three validators, two active: set rotation in the staking end-blocker
+    "capacity": ("MC_Capacity.cfg", (5, 7)),      # capacity sizes around the rounding boundaries, holder of a shard and a free provider, rewards in between
     "rewardage": ("MC_Reward.cfg", (6, 7)),      # the reward family from a genesis 5000 coins before the subsidy's first halving
 }
 MC_FAMILY_CFG = {"accounts": 8, "dids": 2, "validators": 2, "balance": 10000000, "blockReward": 840}
